@@ -641,7 +641,7 @@ class ActionCommand(Command):
                         unquote = True
                         break
             if unquote:
-                if "," in value:
+                if value.startswith("["):
                     args += tools.to_list(value)
                 else:
                     args.append(value.strip('"'))
@@ -811,7 +811,7 @@ class EnvelopeCommand(TestCommand):
         value = self.arguments["header-list"]
         if isinstance(value, list):
             # FIXME
-            value = "[{}]".format(",".join('"{}"'.format(item) for item in value))
+            value = "[{}]".format(",".join(value))
         if value.startswith("["):
             result += (tools.to_list(value),)
         else:
@@ -819,7 +819,7 @@ class EnvelopeCommand(TestCommand):
         value = self.arguments["key-list"]
         if isinstance(value, list):
             # FIXME
-            value = "[{}]".format(",".join('"{}"'.format(item) for item in value))
+            value = "[{}]".format(",".join(value))
         if value.startswith("["):
             result += (tools.to_list(value),)
         else:
@@ -841,7 +841,7 @@ class ExistsCommand(TestCommand):
         """
         value = self.arguments["header-names"]
         if isinstance(value, list):
-            value = "[{}]".format(",".join('"{}"'.format(item) for item in value))
+            value = "[{}]".format(",".join(value))
         if not value.startswith("["):
             return ("exists", value.strip('"'))
         return ("exists",) + tuple(tools.to_list(value))
@@ -865,12 +865,12 @@ class HeaderCommand(TestCommand):
 
     def args_as_tuple(self):
         """Return arguments as a list."""
-        if "," in self.arguments["header-names"]:
+        if self.arguments["header-names"].startswith("["):
             result = tuple(tools.to_list(self.arguments["header-names"]))
         else:
             result = (self.arguments["header-names"].strip('"'),)
         result = result + (self.arguments["match-type"],)
-        if "," in self.arguments["key-list"]:
+        if self.arguments["key-list"].startswith("["):
             result = result + tuple(
                 tools.to_list(self.arguments["key-list"], unquote=False)
             )
@@ -909,7 +909,7 @@ class BodyCommand(TestCommand):
         value = self.arguments["key-list"]
         if isinstance(value, list):
             # FIXME
-            value = "[{}]".format(",".join('"{}"'.format(item) for item in value))
+            value = "[{}]".format(",".join(value))
         if value.startswith("["):
             result += tuple(tools.to_list(value))
         else:
@@ -1021,7 +1021,7 @@ class CurrentdateCommand(TestCommand):
         value = self.arguments["key-list"]
         if isinstance(value, list):
             # FIXME
-            value = "[{}]".format(",".join('"{}"'.format(item) for item in value))
+            value = "[{}]".format(",".join(value))
         if value.startswith("["):
             result = result + tuple(tools.to_list(value))
         else:
